@@ -736,6 +736,16 @@ func buildPDF(c *fw.Ctx, dir string, i int, base *pagegen.Page) pdfCase {
 	if r.Intn(5) == 0 {
 		s2 := base.Spec
 		s2.Cols = 1 + r.Intn(3)
+		// the second page need not be cut into fragments the way the first one is
+		// (a page of whole lines followed by a character-level page, and the reverse)
+		if (i/5)%2 == 0 {
+			if base.Spec.Frag == "char" {
+				s2.Frag = []string{"line", "word"}[(i/10)%2]
+			} else {
+				s2.Frag = "char"
+			}
+			c.Seen("pdf", "pages of different fragmentation: "+base.Spec.Frag+" then "+s2.Frag)
+		}
 		pages = append(pages, pagegen.Build(s2, c.Rand("page", i, "p2")))
 	}
 	var sps []pdfw.SimplePage
